@@ -119,8 +119,15 @@ func (t *tracer) Subscribe() chan ITrace {
 func (t *tracer) SubscribeChannel(channel chan ITrace) chan ITrace {
 	okCh := make(chan struct{}, 1)
 	sub := subscription{channel: channel, ok: okCh}
-	t.subscription <- sub
-	<-okCh
+	select {
+	case t.subscription <- sub:
+		<-okCh
+	case <-t.done:
+		// the tracer has terminated: nobody will ever take the request.
+		// Hand back the channel closed, exactly as a subscriber that joined
+		// just before the termination would have found it.
+		close(channel)
+	}
 	return channel
 }
 
